@@ -155,6 +155,7 @@ type Delete struct {
 	Returning []SelItem
 }
 type Call struct {
+	Schema string
 	Name string
 	Args []Expr
 }
@@ -173,6 +174,7 @@ type CreateFunction struct {
 }
 type DropFunction struct{ Name string }
 type CreateIndex struct {
+	Schema      string
 	Name, Table string
 	Unique      bool
 	Cols        []string
